@@ -3,7 +3,8 @@
    "unique arrangement" is established by exhaustive search on the multiset and each arrangement is confirmed by the
    verified matcher.  Refutations on the faithful model. *)
 From MX Require Import Spec.Particle Spec.Deriv Spec.Equiv Spec.Parikh Gen.Names Gen.Templates Gen.Schema Gen.Lib Model.Tables Model.PyM Model.PyObs
-  Model.AbsSeq Model.AbsSeqC02 Model.Classes Model.SeqMachine Model.SeqReject.
+  Model.AbsSeq Model.AbsSeqC02 Model.Classes Model.SeqMachine Model.SeqReject Model.SeqRemove Model.SeqPermute.
+From Coq Require Import Permutation.
 From Coq Require Import List Bool Arith.
 Import ListNotations.
 
@@ -23,6 +24,20 @@ Proof.
   apply (stree_of_lang l t St). apply (proj1 (cm_row_sound key x l (forallb_In _ _ _ cm_rows_ok I))). exact L.
 Qed.
 Print Assumptions C12b_partial_seq.
+
+(* (a) on the sequence machine, against the SCHEMA's content model: for every type of the sequence class, every word w of the
+   schema language and EVERY permutation p of w: all children of p are accepted, the final check passes, and they are serialised
+   as w (the one arrangement the schema allows for this collection, since leaf names are distinct) *)
+Theorem C12a_partial_seq : forall key x l w p, In (key, Some x, Some l) cm_rows -> Classes.is_seq l = true -> Lang (re_of x) w -> Permutation w p ->
+  exists t s, stree_of l = Some t /\ addw p 0 (AbsSeq.init t) = Some s /\ AbsSeq.names (AbsSeq.ordered s) = w /\ required true s = [].
+Proof.
+  intros key x l w p I S L P. destruct (is_seq_parts l S) as (t & St & W & ND).
+  apply (proj1 (cm_row_sound key x l (forallb_In _ _ _ cm_rows_ok I))) in L. apply (stree_of_lang l t St) in L.
+  destruct (C02_seq_gen t W ND w 0 L) as (s1 & E1 & R1 & N1).
+  destruct (C12a_machine t w p s1 ND P E1) as (s2 & E2 & _ & N2 & R2).
+  exists t, s2. repeat split; auto; congruence.
+Qed.
+Print Assumptions C12a_partial_seq.
 
 (* RC4: after pitch was removed, cue (an exclusive alternative that is now compatible) is rejected *)
 Example C12_refuted_note :
